@@ -241,7 +241,8 @@ class Gen:
         if k < 0.65:
             s = self.sexpr(depth - 1, ctx)
             # start 1 (or below: clamped to 1) so that the start never lies beyond the end of the string
-            i = r.choice(["1", "1", "0", "-2", "1"])
+            # since fix c1d759ac a start beyond the end yields "" (modelled in Eval.v), so larger starts are in the domain too
+            i = r.choice(["1", "1", "0", "-2", "1", "2", "3", "5", "9", "2.5"])
             j = r.choice(["", ", %d" % r.randint(0, 6), ", 0", ", %s" % self.pr(self.iexpr(1, ctx), 0), ", 2.5", ", 1.4"])
             return ("raw", "MID$(%s, %s%s)" % (self.pr(s, 0), i, j), 6)
         if k < 0.75:
